@@ -148,23 +148,36 @@ def setVClaim : List (Nat × Content) → Nat → Content → List (Nat × Conte
 def addClaim (p : Prophecy) (v : Nat) (c : Content) : Prophecy :=
   { p with groups := addToGroups p.groups c v, vclaims := setVClaim p.vclaims v c }
 
+/-- `types.Claim`.  `ValidatorAddress` is a *string* in the message: `validator` is the operator it decodes to and
+    `spelling` says how it is spelled — 0 is the canonical bech32 text `ValAddress.String()` produces, anything else
+    is another valid spelling of the same bytes (e.g. all upper case).  Two address strings are equal iff both
+    components are. -/
 structure Claim where
   id : String
   validator : Nat
   content : Content
+  spelling : Nat := 0
   deriving Repr
+
+/-- `EnsureAddressIsInWhitelist`: `address.String() == validatorAddress` for some whitelist entry — a string
+    comparison with the canonical spelling -/
+def ensureInWhiteList (wl : List Nat) (c : Claim) : Bool := c.spelling == 0 && inWhiteList wl c.validator
+
+/-- `prophecy.ValidatorClaims[claim.ValidatorAddress] != ""`: the map is keyed by the canonical strings `AddClaim`
+    stores, the lookup uses the raw string of the message -/
+def hasClaimKey (p : Prophecy) (c : Claim) : Bool := c.spelling == 0 && hasClaim p c.validator
 
 /-- `Keeper.ProcessClaim`; returns the new state and the prophecy's `Status` (text, final claim) -/
 def processClaim (ord : List Group → List Group) (vals : List Validator) (st : OState) (c : Claim) :
     Except OErr (OState × StatusText × Content) :=
-  if !inWhiteList st.whitelist c.validator then .error .notWhitelisted
+  if !ensureInWhiteList st.whitelist c then .error .notWhitelisted
   else if !checkActive vals c.validator then .error .invalidValidator
   else if c.id == "" then .error .invalidId
   else if c.content == .empty then .error .invalidClaim
   else
     let p := (getProphecy st.prophecies c.id).getD (newProphecy c.id)
     if p.status != .pending then .error .finalized
-    else if hasClaim p c.validator then .error .duplicate
+    else if hasClaimKey p c then .error .duplicate
     else
       let p' := processCompletion ord vals st.whitelist (addClaim p c.validator c.content)
       .ok ({ st with prophecies := setProphecy st.prophecies p' }, p'.status, p'.final)
